@@ -204,20 +204,20 @@ Proof.
     exfalso. apply E. apply in_map. apply filter_In. split; assumption.
 Qed.
 
-Theorem extract_wrapper_spec p sup_ignored t : NoDup (ids t) ->
-  extract_wrapper p sup_ignored t =
-  match restrict true p t with
+Theorem extract_wrapper_spec p sup t : NoDup (ids t) ->
+  extract_wrapper p sup t =
+  match restrict sup p t with
   | Some r => XOk r
   | None => XErr (if is_leaf t then EValue else ESeedDel)
   end.
 Proof.
   intro Hnd. unfold extract_wrapper. rewrite extract_tree_spec; [|exact Hnd].
   unfold xspec, restrict.
-  assert (E : restrictG true (flt_l (Some (true, false, ids_where p t))) (flt_i (Some (true, false, ids_where p t))) np_false t =
-              restrictG true p np_true np_false t).
+  assert (E : restrictG sup (flt_l (Some (true, false, ids_where p t))) (flt_i (Some (true, false, ids_where p t))) np_false t =
+              restrictG sup p np_true np_false t).
   { apply restrictG_ext. intros n Hn. unfold flt_l, flt_i, np_true. simpl.
     rewrite negb_involutive. rewrite (ids_where_mem p t n Hnd Hn). repeat split. }
-  rewrite E. destruct (restrictG true p np_true np_false t) as [r|] eqn:R; [reflexivity|].
+  rewrite E. destruct (restrictG sup p np_true np_false t) as [r|] eqn:R; [reflexivity|].
   destruct t as [i x l e ks]. destruct ks as [|k r].
   - rewrite x_excluded_leaf. rewrite restrictG_leaf in R.
     pose proof (ids_where_mem p _ _ Hnd (preorder_self (T i x l e []))) as M. simpl t_id in M.
